@@ -50,6 +50,7 @@ contract(CLOUD + "BaseCloud.get_token",
          emits={"token_req": "udpid", "token_res": "result"},
          raises={CLOUD + "CloudError": {}, "builtins.KeyError": {}, "builtins.ValueError": {}, "builtins.TypeError": {}},
          ensures={"credentials_of_a_matching_entry_only": "final('token')['udpId'] == udpid and result == (final('token')['token'], final('token')['key'])"},
+         local_roles={"token": "loop0.target"},
          loops={"0": {"match": "tokenlist", "havoc": {"token": "opt:ext:json"}}})
 
 
